@@ -16,10 +16,13 @@ import (
 	"sort"
 	"strings"
 
+	"github.com/bufbuild/buf/private/buf/buftarget"
+	"github.com/bufbuild/buf/private/buf/bufworkspace"
 	"github.com/bufbuild/buf/private/bufpkg/bufcas"
 	"github.com/bufbuild/buf/private/bufpkg/bufmodule"
 	"github.com/bufbuild/buf/private/bufpkg/bufmodule/bufmodulestore"
 	"github.com/bufbuild/buf/private/bufpkg/bufparse"
+	"github.com/bufbuild/buf/private/bufpkg/bufplugin"
 	"github.com/bufbuild/buf/private/pkg/filelock"
 	"github.com/bufbuild/buf/private/pkg/slogext"
 	"github.com/bufbuild/buf/private/pkg/storage"
@@ -545,6 +548,11 @@ func Run(tp *tape.Tape, env *engine.Env) *engine.Outcome {
 		}
 	}
 
+	// a local v2 workspace as a backend (modules in sub-directories, LICENSE / doc file inheritance)
+	if tp.Draw("wsbackend", 2) == 1 {
+		m.workspaceBackend()
+	}
+
 	// the module cache as a backend: storing and loading verifies the pinned digest
 	for _, tarLayout := range []bool{false, true} {
 		if tp.Draw("cachebackend", 2) == 0 {
@@ -728,6 +736,126 @@ func totalFired(s *sched.Sim) int {
 		n += v
 	}
 	return n
+}
+
+// workspaceBackend lays all modules out as one v2 workspace (buf.yaml at the root, one directory
+// per module) and digests them through bufworkspace, the way the CLI sees a local workspace. A
+// module that has no LICENSE / documentation file of its own takes the one at the workspace root;
+// a module that has its own keeps it, whatever the root offers.
+func (m *dsim) workspaceBackend() {
+	ctx := context.Background()
+	root := map[string][]byte{}
+	for _, name := range []string{"LICENSE", "buf.md", "README.md", "README.markdown"} {
+		if m.tp.Draw("ws.rootfile", 3) == 1 {
+			root[name] = []byte(fmt.Sprintf("workspace %s #%d\n", name, m.tp.Draw("d.nonce", 1000)))
+		}
+	}
+	all := map[string][]byte{}
+	var y strings.Builder
+	y.WriteString("version: v2\nmodules:\n")
+	dirs := make([]string, len(m.mods))
+	for i, md := range m.mods {
+		dirs[i] = tape.Pick(m.tp, "ws.dir", []string{fmt.Sprintf("m%d", i), fmt.Sprintf("mods/m%d", i), fmt.Sprintf("proto/m%d/v1", i)})
+		fmt.Fprintf(&y, "  - path: %s\n", dirs[i])
+		if i != len(m.mods)-1 || m.tp.Draw("ws.named", 2) == 1 {
+			fmt.Fprintf(&y, "    name: %s\n", md.name)
+		}
+		for p, c := range md.files {
+			all[dirs[i]+"/"+p] = c
+		}
+	}
+	for p, c := range root {
+		all[p] = c
+	}
+	all["buf.yaml"] = []byte(y.String())
+	// expected module files: own files, plus what is inherited from the root
+	expect := make([]map[string][]byte, len(m.mods))
+	for i, md := range m.mods {
+		e := map[string][]byte{}
+		for p, c := range md.files {
+			e[p] = c
+		}
+		if _, ok := e["LICENSE"]; !ok {
+			if c, ok := root["LICENSE"]; ok {
+				e["LICENSE"] = c
+			}
+		}
+		hasDoc := false
+		for _, d := range docOrder {
+			if _, ok := e[d]; ok {
+				hasDoc = true
+			}
+		}
+		if !hasDoc {
+			for _, d := range docOrder {
+				if c, ok := root[d]; ok {
+					e[d] = c
+					break
+				}
+			}
+		}
+		expect[i] = e
+	}
+	var want func(i int) string
+	want = func(i int) string {
+		var deps []string
+		for _, d := range m.allDeps(i) {
+			deps = append(deps, want(d))
+		}
+		return refB5(expect[i], deps)
+	}
+	bucket, err := storagemem.NewReadBucket(all)
+	if err != nil {
+		panic(err)
+	}
+	targeting, err := buftarget.NewBucketTargeting(ctx, slogext.NopLogger, bucket, ".", nil, nil, buftarget.TerminateAtControllingWorkspace)
+	if err != nil {
+		m.violate("digest-computable", "workspace", "bucket targeting of a v2 workspace failed: %v", err)
+		return
+	}
+	provider := bufworkspace.NewWorkspaceProvider(slogext.NopLogger, bufmodule.NopGraphProvider, bufmodule.NopModuleDataProvider, bufmodule.NopCommitProvider, bufplugin.NopPluginKeyProvider)
+	workspace, err := provider.GetWorkspaceForBucket(ctx, bucket, targeting)
+	if err != nil {
+		m.violate("digest-computable", "workspace", "a v2 workspace of %d modules cannot be loaded: %v", len(m.mods), err)
+		return
+	}
+	seen := 0
+	for _, mod := range workspace.Modules() {
+		if !mod.IsLocal() {
+			continue
+		}
+		idx := -1
+		for i, d := range dirs {
+			if mod.BucketID() == d {
+				idx = i
+			}
+		}
+		if idx < 0 {
+			m.violate("harness-reference", "harness|workspace-module", "unexpected module with bucket id %q", mod.BucketID())
+			return
+		}
+		seen++
+		d, err := mod.Digest(bufmodule.DigestTypeB5)
+		if err != nil {
+			m.violate("digest-computable", "workspace", "digest of workspace module %d failed: %v", idx, err)
+			continue
+		}
+		if w := want(idx); d.String() != w {
+			var rootNames []string
+			for n := range root {
+				rootNames = append(rootNames, n)
+			}
+			sort.Strings(rootNames)
+			m.violate("digest-equals-published-construction", "backend|workspace", "module %d in a v2 workspace (root has %v): digest %s, reference %s over its own module files plus inherited LICENSE / doc file", idx, rootNames, d.String(), w)
+		}
+	}
+	if seen != len(m.mods) {
+		m.violate("digest-computable", "workspace", "workspace has %d local modules, expected %d", seen, len(m.mods))
+	}
+	m.s.Probe("workspace-backend")
+	if len(root) > 0 {
+		m.s.Probe("workspace-root-license-or-doc")
+	}
 }
 
 // cacheRoundTripB4 does the same for the legacy digest, whose construction includes the v1
